@@ -3,6 +3,7 @@ package props
 import (
 	"crypto/sha256"
 	"encoding/json"
+	"hash/fnv"
 	"html"
 	"net/http"
 	"net/http/httptest"
@@ -66,6 +67,96 @@ func (n *c20Next) ServeHTTP(_ http.ResponseWriter, r *http.Request) {
 func c20Req(method, pth string) *http.Request {
 	return &http.Request{Method: method, URL: &url.URL{Path: pth}, Header: http.Header{}, Proto: "HTTP/1.1",
 		ProtoMajor: 1, ProtoMinor: 1, Host: "example.com", RequestURI: pth}
+}
+
+// c20Vary: deterministic choices among EQUIVALENT ways of putting one input line to the real code (the
+// same device as in c17.go): a hash of the line, re-mixed for every draw. The model sees none of it.
+type c20Vary struct{ v uint64 }
+
+func c20NewVary(in []string) *c20Vary {
+	h := fnv.New64a()
+	h.Write([]byte(strings.Join(in, " ")))
+	return &c20Vary{v: h.Sum64()}
+}
+
+func (c *c20Vary) pick(n int) int {
+	c.v += 0x9E3779B97F4A7C15
+	z := c.v
+	z = (z ^ (z >> 30)) * 0xBF58476D1CE4E5B9
+	z = (z ^ (z >> 27)) * 0x94D049BB133111EB
+	z ^= z >> 31
+	return int(z % uint64(n))
+}
+
+// c20ReqV: the same method and path in a request that also carries what requests carry besides — a
+// query, a fragment, the path in a second (percent-encoded) spelling next to the decoded one, Accept
+// and other header fields. The middlewares go by the decoded path alone.
+func c20ReqV(v *c20Vary, method, pth string) *http.Request {
+	r := c20Req(method, pth)
+	switch v.pick(4) {
+	case 1:
+		r.URL.RawQuery = "x=1"
+	case 2:
+		r.URL.RawQuery = "path=/docs&doc=/swagger.json"
+		r.URL.Fragment = "top"
+	}
+	if v.pick(3) == 0 {
+		// RawPath: another valid encoding of Path (first letter percent-encoded)
+		ok := true
+		for i := 0; i < len(pth); i++ {
+			if c := pth[i]; !(c == '/' || c == '.' || c == '-' || c == '_' || c >= '0' && c <= '9' || c >= 'a' && c <= 'z' || c >= 'A' && c <= 'Z') {
+				ok = false
+			}
+		}
+		for i := 0; ok && i < len(pth); i++ {
+			if c := pth[i]; c >= 'a' && c <= 'z' || c >= 'A' && c <= 'Z' {
+				const hexd = "0123456789ABCDEF"
+				r.URL.RawPath = pth[:i] + "%" + string(hexd[c>>4]) + string(hexd[c&15]) + pth[i+1:]
+				break
+			}
+		}
+	}
+	switch v.pick(4) {
+	case 1:
+		r.Header.Set("Accept", "application/json")
+	case 2:
+		r.Header.Set("Accept", "text/html,application/xhtml+xml;q=0.9,*/*;q=0.8")
+		r.Header.Set("Accept-Encoding", "gzip")
+		r.Header.Set("If-None-Match", "\"abc\"")
+	case 3:
+		r.Header.Set("Content-Type", "application/json")
+		r.Header.Set("X-Forwarded-Prefix", "/proxy")
+	}
+	r.RequestURI = r.URL.RequestURI()
+	return r
+}
+
+// c20WarmUp: a handler answers many requests; before the observed one it may have answered others —
+// for the very path, for the usual document paths, for something else. Answers discarded.
+func c20WarmUp(v *c20Vary, h http.Handler, method, reqPath string) {
+	n := v.pick(4)
+	if n == 3 {
+		n = 0
+	}
+	for ; n > 0; n-- {
+		var r *http.Request
+		switch v.pick(5) {
+		case 0:
+			r = c20ReqV(v, http.MethodGet, reqPath)
+		case 1:
+			r = c20ReqV(v, method, "/docs")
+		case 2:
+			r = c20ReqV(v, http.MethodGet, "/swagger.json")
+		case 3:
+			r = c20ReqV(v, http.MethodPost, reqPath+"/zzz")
+		default:
+			r = c20ReqV(v, http.MethodGet, "/docs/oauth2-callback")
+		}
+		func() {
+			defer func() { _ = recover() }()
+			h.ServeHTTP(httptest.NewRecorder(), r)
+		}()
+	}
 }
 
 func c20Between(s, a, b string) (string, bool) {
@@ -144,23 +235,49 @@ func c20PageFields(kind, body string) (title, specURL string) {
 	return
 }
 
-func c20UI(kind string, base, pth, specURL, title, tmpl, script, cb string, next http.Handler) http.Handler {
+// c20Extra: what the option structs hold beyond the common fields, and whether the caller has run the
+// exported EnsureDefaults on the options before handing them over (the constructors run it anyway).
+type c20Extra struct {
+	preset, styles, fav32, fav16 string
+	ensure                       bool
+}
+
+func c20UI(kind string, base, pth, specURL, title, tmpl, script, cb string, x c20Extra, next http.Handler) http.Handler {
 	switch kind {
 	case "redoc":
-		return middleware.Redoc(middleware.RedocOpts{BasePath: base, Path: pth, SpecURL: specURL, Title: title, Template: tmpl, RedocURL: script}, next)
+		o := middleware.RedocOpts{BasePath: base, Path: pth, SpecURL: specURL, Title: title, Template: tmpl, RedocURL: script}
+		if x.ensure {
+			o.EnsureDefaults()
+		}
+		return middleware.Redoc(o, next)
 	case "rapidoc":
-		return middleware.RapiDoc(middleware.RapiDocOpts{BasePath: base, Path: pth, SpecURL: specURL, Title: title, Template: tmpl, RapiDocURL: script}, next)
-	case "swaggerui":
-		return middleware.SwaggerUI(middleware.SwaggerUIOpts{BasePath: base, Path: pth, SpecURL: specURL, Title: title, Template: tmpl, SwaggerURL: script, OAuthCallbackURL: cb}, next)
-	case "oauth2":
-		return middleware.SwaggerUIOAuth2Callback(middleware.SwaggerUIOpts{BasePath: base, Path: pth, SpecURL: specURL, Title: title, Template: tmpl, SwaggerURL: script, OAuthCallbackURL: cb}, next)
+		o := middleware.RapiDocOpts{BasePath: base, Path: pth, SpecURL: specURL, Title: title, Template: tmpl, RapiDocURL: script}
+		if x.ensure {
+			o.EnsureDefaults()
+		}
+		return middleware.RapiDoc(o, next)
+	case "swaggerui", "oauth2":
+		o := middleware.SwaggerUIOpts{BasePath: base, Path: pth, SpecURL: specURL, Title: title, Template: tmpl, SwaggerURL: script, OAuthCallbackURL: cb,
+			SwaggerPresetURL: x.preset, SwaggerStylesURL: x.styles, Favicon32: x.fav32, Favicon16: x.fav16}
+		if kind == "oauth2" {
+			if x.ensure {
+				o.EnsureDefaultsOauth2()
+			}
+			return middleware.SwaggerUIOAuth2Callback(o, next)
+		}
+		if x.ensure {
+			o.EnsureDefaults()
+		}
+		return middleware.SwaggerUI(o, next)
 	}
 	panic("C20: unknown kind " + kind)
 }
 
 // standalone observation fields: who status ctype nextMethod nextPath same
-func c20Observe(h http.Handler, n *c20Next, hasNext bool, method, reqPath string) (fields []string, rec *httptest.ResponseRecorder, who string) {
-	req := c20Req(method, reqPath)
+func c20Observe(v *c20Vary, h http.Handler, n *c20Next, hasNext bool, method, reqPath string) (fields []string, rec *httptest.ResponseRecorder, who string) {
+	c20WarmUp(v, h, method, reqPath)
+	*n = c20Next{}
+	req := c20ReqV(v, method, reqPath)
 	n.orig = req
 	rec = httptest.NewRecorder()
 	h.ServeHTTP(rec, req)
@@ -219,6 +336,7 @@ func (b *c20Builder) build(next http.Handler) http.Handler {
 // the cost of an H case and they are meant to be shared by many handlers.
 type c20Env struct {
 	doc *loads.Document
+	api *untyped.API
 	ctx *middleware.Context
 }
 
@@ -239,7 +357,7 @@ func c20APIEnv(base, title string) *c20Env {
 		id := "OP" + strconv.Itoa(i)
 		api.RegisterOperation("get", p, runtime.OperationHandlerFunc(func(any) (any, error) { return id, nil }))
 	}
-	e := &c20Env{doc: doc, ctx: middleware.NewContext(doc, api, nil)}
+	e := &c20Env{doc: doc, api: api, ctx: middleware.NewContext(doc, api, nil)}
 	if len(c20Envs) < 256 {
 		c20Envs[key] = e
 	}
@@ -271,7 +389,15 @@ func c20Doc(base, title string) []byte {
 	return b
 }
 
-func c20UIOptions(kinds string, vals []string) []middleware.UIOption {
+// custom templates for the API handlers, one per flavour, in which title and spec location stand where
+// c20PageFields looks for them (the option value "@" stands for the template of the case's flavour)
+var c20HTemplates = map[string]string{
+	"redoc":     `<html><head><title>{{ .Title }}</title></head><body><h1>custom</h1><redoc spec-url='{{ .SpecURL }}'></redoc><script src="{{ .RedocURL }}"></script></body></html>`,
+	"rapidoc":   `<html><head><title>{{ .Title }}</title></head><body><h1>custom</h1><rapi-doc spec-url="{{ .SpecURL }}"></rapi-doc></body></html>`,
+	"swaggerui": `<html><head><title>{{ .Title }}</title></head><body><h1>custom</h1><script>const ui = SwaggerUIBundle({ url: '{{ .SpecURL }}', dom_id: '#swagger-ui' })</script></body></html>`,
+}
+
+func c20UIOptions(flavour, kinds string, vals []string) []middleware.UIOption {
 	if kinds == "-" {
 		return nil
 	}
@@ -290,7 +416,11 @@ func c20UIOptions(kinds string, vals []string) []middleware.UIOption {
 		case 't':
 			out = append(out, middleware.WithUITitle(vals[i]))
 		case 'm':
-			out = append(out, middleware.WithTemplate(vals[i]))
+			if vals[i] == "@" {
+				out = append(out, middleware.WithTemplate(c20HTemplates[flavour]))
+			} else {
+				out = append(out, middleware.WithTemplate(vals[i]))
+			}
 		default:
 			panic("C20: unknown UI option kind")
 		}
@@ -319,8 +449,15 @@ func c20Exec(in []string) []string {
 		if hasNext {
 			next = n
 		}
-		h := c20UI(kind, proto.UnB(in[2]), proto.UnB(in[3]), proto.UnB(in[4]), proto.UnB(in[5]), "", "", proto.UnB(in[6]), next)
-		fields, rec, who := c20Observe(h, n, hasNext, proto.UnB(in[8]), proto.UnB(in[9]))
+		vary := c20NewVary(in)
+		// the script and asset locations only feed the page; set or left to their defaults
+		x, script := c20Extra{ensure: vary.pick(3) == 0}, ""
+		if vary.pick(2) == 0 {
+			script = "https://cdn.test/ui/bundle.js"
+			x.preset, x.styles, x.fav32, x.fav16 = "https://cdn.test/ui/preset.js", "/assets/ui.css", "/assets/f32.png", "/assets/f16.png"
+		}
+		h := c20UI(kind, proto.UnB(in[2]), proto.UnB(in[3]), proto.UnB(in[4]), proto.UnB(in[5]), "", script, proto.UnB(in[6]), x, next)
+		fields, rec, who := c20Observe(vary, h, n, hasNext, proto.UnB(in[8]), proto.UnB(in[9]))
 		title, su := "", ""
 		if who == "self" {
 			title, su = c20PageFields(kind, rec.Body.String())
@@ -350,15 +487,28 @@ func c20Exec(in []string) []string {
 				}
 			}
 		}
-		h := middleware.Spec(proto.UnB(in[1]), []byte(proto.UnB(in[4])), next, opts...)
-		fields, rec, _ := c20Observe(h, n, hasNext, proto.UnB(in[6]), proto.UnB(in[7]))
+		vary := c20NewVary(in)
+		body := []byte(proto.UnB(in[4]))
+		switch vary.pick(3) {
+		case 0:
+			if len(body) == 0 {
+				body = nil // no document bytes at all
+			}
+		case 1:
+			// the document as the front part of a larger buffer
+			big := append(append(make([]byte, 0, len(body)+16), body...), "TRAILING-GARBAGE"...)
+			body = big[:len(body)]
+		}
+		h := middleware.Spec(proto.UnB(in[1]), body, next, opts...)
+		fields, rec, _ := c20Observe(vary, h, n, hasNext, proto.UnB(in[6]), proto.UnB(in[7]))
 		return append(fields, proto.B(rec.Body.String()))
 	case "H":
 		kind := in[1]
 		env := c20APIEnv(proto.UnB(in[2]), proto.UnB(in[3]))
 		doc, ctx := env.doc, env.ctx
 		rt := &c20Builder{}
-		opts := c20UIOptions(in[4], proto.UnL(in[5]))
+		vary := c20NewVary(in)
+		opts := c20UIOptions(kind, in[4], proto.UnL(in[5]))
 		var h http.Handler
 		// one case in four hands over NO builder (the handlers then use the pass-through builder): what
 		// the router was given cannot be recorded then, an operation's answer is recognised by its body
@@ -369,6 +519,15 @@ func c20Exec(in []string) []string {
 		}
 		switch kind {
 		case "redoc":
+			if in[4] == "-" && vary.pick(2) == 0 {
+				// without options this is what middleware.Serve / ServeWithBuilder give (a context of their own)
+				if noBuilder {
+					h = middleware.Serve(doc, env.api)
+				} else {
+					h = middleware.ServeWithBuilder(doc, env.api, build)
+				}
+				break
+			}
 			h = ctx.APIHandler(build, opts...)
 		case "rapidoc":
 			h = ctx.APIHandlerRapiDoc(build, opts...)
@@ -377,7 +536,9 @@ func c20Exec(in []string) []string {
 		default:
 			panic("C20: unknown flavour " + kind)
 		}
-		req := c20Req(proto.UnB(in[6]), proto.UnB(in[7]))
+		c20WarmUp(vary, h, proto.UnB(in[6]), proto.UnB(in[7]))
+		*rt = c20Builder{}
+		req := c20ReqV(vary, proto.UnB(in[6]), proto.UnB(in[7]))
 		rec := httptest.NewRecorder()
 		h.ServeHTTP(rec, req)
 		ct := rec.Header().Get("Content-Type")
@@ -406,8 +567,19 @@ func c20Exec(in []string) []string {
 	case "X":
 		kind := in[1]
 		tmpl := c20Template(in[5])
+		vary := c20NewVary(in)
+		// every option value that reaches the page is hostile (or benign) together: also the locations of
+		// preset, style sheet and icons and, for the SwaggerUI page, the OAuth2 callback location
+		wide, ensure := vary.pick(2) == 0, vary.pick(3) == 0
 		page := func(title, su, script string) string {
-			h := c20UI(kind, "", "", su, title, tmpl, script, "", nil)
+			x, cb := c20Extra{ensure: ensure}, ""
+			if wide && script != "" {
+				x = c20Extra{preset: script + "?preset", styles: script + "?css", fav32: "32" + script, fav16: script, ensure: ensure}
+			}
+			if wide && kind == "swaggerui" && title != "" {
+				cb = title
+			}
+			h := c20UI(kind, "", "", su, title, tmpl, script, cb, x, nil)
 			docPath := "/docs"
 			if kind == "oauth2" {
 				docPath = "/docs/oauth2-callback"
@@ -449,7 +621,7 @@ func c20RandPath(r *proto.Rng) string {
 	}
 }
 
-var c20Methods = []string{"GET", "GET", "GET", "POST", "HEAD", "OPTIONS", "DELETE", "PUT", "get", "X"}
+var c20Methods = []string{"GET", "GET", "GET", "POST", "HEAD", "OPTIONS", "DELETE", "PUT", "get", "X", "PATCH", "TRACE", "CONNECT", "", "Head"}
 
 var c20Titles = []string{"", "T", "My API", "<script>alert(1)</script>", "a\"b", "it's", "R&D", "</title><b>", "x<y>z", "{{.}}", "a`b\\c", "-->"}
 
@@ -600,6 +772,14 @@ func c20Gen(r *proto.Rng, n int, tier string, emit func(in ...string)) {
 				// a well-formed document with insignificant white space: served byte for byte, not re-rendered
 				body = r.Pick("{\n  \"swagger\": \"2.0\",\n  \"paths\": {}\n}\n", "{ \"a\" : [ 1 , 2 ] }", " {}\n", "[\n]\n", "{\"a\":1}\n\n")
 			}
+			if r.Chance(1, 60) {
+				// a document of real size (beyond any buffer a middleware or recorder might use), every byte placed
+				b := make([]byte, 3000+r.Intn(70000))
+				for j := range b {
+					b[j] = byte(32 + (j*7+j>>8)%95)
+				}
+				body = string(b)
+			}
 			emit("S", proto.B(base), kf, proto.L(vals), proto.B(body), yes(3, 4),
 				proto.B(r.Pick(c20Methods...)), proto.B(c20Variant(r, d)))
 		case k < 17: // H
@@ -609,7 +789,11 @@ func c20Gen(r *proto.Rng, n int, tier string, emit func(in ...string)) {
 			var vals []string
 			uiBase, uiPath, su := apiBase, "docs", ""
 			for j := r.Intn(4); j > 0; j-- {
-				switch r.Intn(5) {
+				switch r.Intn(6) {
+				case 5:
+					// a custom template of the flavour's shape ("@": Exec puts the text in)
+					ks.WriteByte('m')
+					vals = append(vals, "@")
 				case 0:
 					v := r.Pick("", "/", "ui", "/ui", "/ui/", "/a/../ui")
 					ks.WriteByte('b')
